@@ -94,6 +94,9 @@ def run(tier, seed, only_case=None):
     if only_case is None:
         r.model_check("MC_Coarsen", "MC_Coarsen_quick.cfg" if tier == "quick" else "MC_Coarsen_thorough.cfg", timeout=3000)
         r.model_check("CoarsenLock", "MC_CoarsenLock_ok.cfg", timeout=600)
+        # broken protocol variants are refuted: a lazy map lets reads escape the lock; yielding inside the lock deadlocks
+        r.expect_refuted("CoarsenLock", "MC_CoarsenLock_lazy.cfg", "NoWriteWhileReading")
+        r.expect_refuted("CoarsenLock", "MC_CoarsenLock_yieldlock.cfg", "Terminates")
         if tier == "thorough":
             # unbounded in the bounded model's constants: an inductive invariant of the lock protocol for symbolic
             # NSpans <= 12, Batch <= 6, discharged by Apalache
